@@ -7,8 +7,10 @@ import xml.etree.ElementTree as ET
 
 b = json.load(open('/root/.vp/BASELINE.json'))
 out = os.path.join(tempfile.mkdtemp(dir='/dev/shm'), 'junit.xml')
-cmd = b['cmd'].replace('<file>', out)
+repo = sys.argv[1] if len(sys.argv) > 1 else '/repo'
+cmd = b['cmd'].replace('<file>', out).replace('cd /repo', 'cd ' + repo)
 env = dict(os.environ)
+env['PYTHONPATH'] = (sys.argv[1] if len(sys.argv) > 1 else '/repo')
 for k in list(env):
     if k.startswith('TRASHCLI_VERIF'):
         del env[k]
